@@ -70,6 +70,44 @@ def run(run, replay=None):
                               {"acknowledged": regs, "user_entries": len(entries), "distinct": len(set(entries))}))
         finally:
             srv.stop()
+    # a large learned table: confirmations of many different words by concurrent clients (a read-copy-update of the table
+    # outside its lock loses increments only when two confirmations overlap; the window grows with the table)
+    kana = "あいうえおかきくけこさしすせそたちつてとなにぬねのはひふへほまみむめもやゆよらりるれろわ"
+    nwords = 1500 if thorough else 900
+    big = [(kana[i % 44] + kana[(i // 44) % 44] + kana[(7 * i + 3) % 44] + "ん", "名%d" % i, "一般名詞") for i in range(nwords)]
+    bigdic = S.make_dictionary(bindir, S.workdir("c15big"), std=S.STD + big)
+    srv = S.Server(bindir, bigdic, None, workers=8)
+    try:
+        if bigdic is not None and srv.wait_listening():
+            def learn(words, out, idx):
+                ok = 0
+                for rd, w, _ in words:
+                    res = srv.conv(rd)
+                    ts = S.texts(res) or []
+                    if w not in ts:
+                        continue
+                    st, _ = srv.rpc("UpdateFrequency", {"session_id": res[1]["session_id"], "candidate_id": str(ts.index(w))})
+                    ok += st == "ok"
+                out[idx] = ok
+            first = [0]
+            learn(big, first, 0)                       # sequential: fills the table
+            clients = 8
+            out = [0] * clients
+            per = 120 if thorough else 70
+            ths = [threading.Thread(target=learn, args=([big[(i * 131 + j * 17) % nwords] for j in range(per)], out, i)) for i in range(clients)]
+            for t in ths:
+                t.start()
+            for t in ths:
+                t.join(180)
+            d = srv.dump()
+            total = sum(c for _, w, c, _ in (d or {"frequencies": []})["frequencies"] if w.startswith("名"))
+            o = {"clients": clients, "pairs_per_client": per, "table_entries": first[0], "acknowledged_confirmations": first[0] + sum(out),
+                 "learned_count": total, "scenario": "concurrent confirmations of different words on a table of %d learned words" % first[0]}
+            obs.append(o)
+            if total != first[0] + sum(out) or first[0] < nwords // 2:
+                fails.append(("confirmation-lost", {"kind": "confirmation-lost", "after": "concurrent-large-table"}, o))
+    finally:
+        srv.stop()
     # arbitrary delay: the clock (hook) jumps between the response and the confirmation while other clients convert
     import os
     nowf = os.path.join(wd, "now")
